@@ -20,6 +20,8 @@ THEOREMS = [
     'Tbox.C17.C17_timeout_leaves_child_running_counterexample', 'Tbox.C17.C17_timeout_repaired',
     'Tbox.C17.C17_stale_block_counterexample', 'Tbox.C17.C17_stale_block_repaired',
     'Tbox.C17.C17_repeat_zero_means_forever', 'Tbox.C17.C17_sequence_header_literal_differs',
+    # whole-tree theorem by simulation through the queue (serial composites, sync + delayed leaves)
+    'Tbox.C17.C17_result_matches_doc_serial', 'Tbox.C17.gen', 'Tbox.C17.good_all', 'Tbox.C17.runU_embed', 'Tbox.C17.step_embed',
     # ActionExecutor
     'Tbox.C17.C17_exec_one_at_a_time', 'Tbox.C17.C17_exec_heads_only', 'Tbox.C17.Exec.sched_inv', 'Tbox.C17.Exec.xstep_inv',
     # the inductive steps themselves
@@ -209,6 +211,8 @@ def gen(rng, tier):
                     for b in pair:
                         yield gen_placement(tree, {i: a, j: b}, L)
     n = 1500 if quick else 12000
+    # whole-tree theorem by simulation through the queue (serial composites, sync + delayed leaves)
+    'Tbox.C17.C17_result_matches_doc_serial', 'Tbox.C17.gen', 'Tbox.C17.good_all', 'Tbox.C17.runU_embed', 'Tbox.C17.step_embed',
     # ActionExecutor
     yield ['xcancelcur', 'xapp D 3', 'xapp Q 1', 'xapp D 1', 'tree Fs', 'do start', 'xemit 0 s', 'xcancel 0', 'xpass', 'xapp D 1']
     yield ['xapp D 2', 'xcancelcur', 'xapp D 0', 'xemit 2 s', 'xpass']
@@ -286,9 +290,11 @@ LEVEL_TEXT = ('Lean 4 theorems over an executable model of the action framework.
               'defects repaired by patches/C17-01..04 (C17-05 is a hardening of C17-01 found by the invariant proof), each with its repaired counterpart. The model is tied to the real code on every run by '
               'differential execution of generated trees and control scripts on the real epoll loop under a virtual clock; the driver also '
               'evaluates WF and the documented result (reference evaluator, all composites) on every visited state')
-LEVEL_NOTE = ('OPEN: whole-tree "root result = documented meaning, leaves started in the documented order" through the queue (proved for the '
-              'Sequence control flow; compared with the evaluator on every control-free generated run for all composites); trace equivalence '
-              'of a reset tree with a fresh one (Clean + WF after reset are proved); ActionExecutor not modelled; trusted: Lean kernel, '
+LEVEL_NOTE = ('whole-tree "root result = documented meaning, exactly one finish notification, leaves called in the documented order" is PROVED through '
+              'the deferred queue for trees of Sequence/IfElse/IfThen/Switch/Wrapper/Composite over Function and Sleep leaves (C17_result_matches_doc_serial, '
+              'safety for every pass/clock sequence); OPEN: liveness of that class, Loop/LoopIf/Repeat, Parallel (compared with the evaluator on '
+              'every control-free generated run for all composites); trace equivalence '
+              'of a reset tree with a fresh one (Clean + WF after reset are proved); ActionExecutor: highest-priority-first and callbacks-once monitored, not proved; trusted: Lean kernel, '
               'hand-written model, harness, generator coverage (measured)')
 TECHNIQUE = 'Lean 4 invariant/structural-induction proofs over an action-tree model + model/implementation correspondence on the real loop'
 DESIGN_REF = 'DESIGN.md §6 C17, §7 row 15'
